@@ -310,16 +310,46 @@ type verdict struct {
 	Split    int               // non repeated, non main flows seen on >= 2 pages
 }
 
+const floatedMark = "letters:"
+
+func sortedLetters(s string) string {
+	if strings.HasPrefix(s, floatedMark) {
+		return s
+	}
+	l := strings.Split(letters(s), "")
+	sort.Strings(l)
+	return floatedMark + strings.Join(l, "")
+}
+
 // compareFlow classifies the difference between the expected and observed text of a flow.
-func compareFlow(f *flow, where, got string, add func(clause, site, detail string)) {
+// floated = the letters observed in floated ::first-letter boxes of the flow: they count for
+// conservation, their place is not asserted (a float is a flow of its own).
+func compareFlow(f *flow, where, got, floated string, add func(clause, site, detail string)) {
 	key, want, site := f.Key, f.Want, "flow:"+f.Site
-	if want == got {
+	wl, gl := letters(want), letters(got)+floated
+	if floated != "" {
+		// the expected text of the rest of the flow: without the floated letters
+		for _, r := range floated {
+			if i := strings.IndexRune(want, r); i >= 0 {
+				want = want[:i] + want[i+len(string(r)):]
+			}
+		}
+		want = strings.Join(strings.Fields(want), " ")
+		if strings.Contains(floated, pagesMark) {
+			// a counter(pages) value of several digits whose first digit floats: the digits are not told apart
+			strip := func(s string) string { return strings.Join(strings.Fields(strings.ReplaceAll(s, pagesMark, "")), " ") }
+			want, got, wl, gl = strip(want), strip(got), strip(wl), strip(gl)
+		}
+	}
+	if want == got && len(wl) == len(gl) {
 		return
 	}
-	wl, gl := letters(want), letters(got)
 	lost := minus(strings.Split(wl, ""), strings.Split(gl, ""))
 	dup := minus(strings.Split(gl, ""), strings.Split(wl, ""))
-	d := fmt.Sprintf("flow %s%s: want %q got %q", key, where, want, got)
+	d := fmt.Sprintf("flow %s%s: want %q got %q", key, where, f.Want, got)
+	if floated != "" {
+		d += fmt.Sprintf(" and floated first letter(s) %q", floated)
+	}
 	if len(lost) > 0 {
 		add("text-lost", site, d+" lost letters "+strings.Join(lost, ""))
 	}
@@ -327,7 +357,7 @@ func compareFlow(f *flow, where, got string, add func(clause, site, detail strin
 		add("text-duplicated", site, d+" extra letters "+strings.Join(dup, ""))
 	}
 	if len(lost) == 0 && len(dup) == 0 {
-		if wl != gl {
+		if letters(want) != letters(got) {
 			add("text-reordered", site, d)
 		} else {
 			add("space-changed", site, d)
@@ -356,7 +386,13 @@ func evaluate(res *render.Result, fm *flowMap) verdict {
 		if !f.Repeat {
 			got := o.all()
 			v.FlowText[key] = got
-			compareFlow(f, "", got, add)
+			if fl := o.allFloated(); fl != "" {
+				// which letters float is a matter of style: the differential clause compares the letters
+				l := strings.Split(letters(got)+fl, "")
+				sort.Strings(l)
+				v.FlowText[key] = floatedMark + strings.Join(l, "")
+			}
+			compareFlow(f, "", got, o.allFloated(), add)
 			if o != nil && len(o.pages) >= 2 && key != "main" {
 				v.Split++
 			}
@@ -369,11 +405,11 @@ func evaluate(res *render.Result, fm *flowMap) verdict {
 						continue
 					}
 					n++
-					compareFlow(f, fmt.Sprintf(" (repeated) on page %d", p+1), o.perPage[p], add)
+					compareFlow(f, fmt.Sprintf(" (repeated) on page %d", p+1), o.perPage[p], o.floated[p], add)
 				}
 			}
 			if n == 0 {
-				compareFlow(f, " (repeated) on all pages", "", add)
+				compareFlow(f, " (repeated) on all pages", "", "", add)
 			} else {
 				v.FlowText[key] = f.Want
 			}
@@ -517,7 +553,11 @@ func (c *check) run(u int64, ctx reporter) {
 		same := true
 		var diff []string
 		for _, k := range fm.order {
-			if v.FlowText[k] != tall.FlowText[k] {
+			a, b := v.FlowText[k], tall.FlowText[k]
+			if strings.HasPrefix(a, floatedMark) != strings.HasPrefix(b, floatedMark) {
+				a, b = sortedLetters(a), sortedLetters(b)
+			}
+			if a != b {
 				same = false
 				diff = append(diff, fmt.Sprintf("%s: paged %q single page %q", k, v.FlowText[k], tall.FlowText[k]))
 			}
